@@ -1,3 +1,215 @@
-From MWF Require Import Base.Util Dag.DagModel.
-Theorem C14_placeholder : True. Proof. exact I. Qed.
-Print Assumptions C14_placeholder.
+(** C14 -- The workflow graph stays acyclic and its orderings are exact.
+
+    Model: Dag/DagModel.v (maestrowf/datastructures/dag.py as it is in /repo now).
+    Vocabulary (all defined in DagModel.v):
+      graph            = adjacency_table in insertion order, [list (node * successors)]
+      keys g           = the nodes;  succs g x = adjacency_table[x];  edge g a b = b in succs g a
+      reachable g a b  = a path of zero or more edges from a to b
+      graph_acyclic g  = no node has an edge to a node that reaches it back
+      wf g             = keys are distinct and every edge ends at a key
+      run [] ops       = (how the call ended, table) after every operation of [ops]
+      C14_ok           = the monitor the check evaluates on the IMPLEMENTATION's observables *)
+From MWF Require Import Base.Util Dag.DagModel Dag.DagLists Dag.DetectProofs Dag.OpsProofs
+     Dag.BfsProofs Dag.TopoProofs Dag.DfsProofs Dag.MonitorProofs.
+
+(* ---- the cycle detector (core) ------------------------------------------ *)
+
+(** [detect_cycle()] answers True only when a cycle exists (any table). *)
+Theorem detect_sound_true : forall g, detect_cycle g = Some true -> graph_cyclic g.
+Proof. exact detect_cycle_true. Qed.
+Print Assumptions detect_sound_true.
+
+(** [detect_cycle()] answers False only when there is none (any table). *)
+Theorem detect_sound_false : forall g, detect_cycle g = Some false -> graph_acyclic g.
+Proof. exact detect_cycle_false. Qed.
+Print Assumptions detect_sound_false.
+
+(** the model's recursion budget (= number of nodes) is always enough, so on
+    well-formed tables the two answers are exact *)
+Theorem detect_exact : forall g, wf g ->
+  (detect_cycle g = Some true <-> graph_cyclic g) /\
+  (detect_cycle g = Some false <-> graph_acyclic g).
+Proof. exact detect_cycle_iff. Qed.
+Print Assumptions detect_exact.
+
+(* ---- never a cycle (core) ------------------------------------------------ *)
+
+(** For EVERY sequence of add_node / add_edge / remove_edge calls on a fresh
+    DAG, after every call -- whether it returned or raised -- the table is
+    well-formed and acyclic (and the model never ran out of fuel). *)
+Theorem C14_acyclic_always : forall ops : list op,
+  Forall (fun kg : rkind * graph =>
+            wf (snd kg) /\ graph_acyclic (snd kg) /\ fst kg <> KFuel)
+         (run [] ops).
+Proof. exact acyclic_always. Qed.
+Print Assumptions C14_acyclic_always.
+
+(** A refused [add_edge] -- self edge, missing source, missing destination,
+    duplicate, or closing a cycle (the destination already reaches the source)
+    -- leaves the table (hence also [values], which only add_node writes)
+    exactly as it was. *)
+Theorem C14_refusal_unchanged : forall g a b, wf g -> graph_acyclic g ->
+  (a = b \/ ~ In a (keys g) \/ ~ In b (keys g) \/ In b (succs g a) \/ reachable g b a) ->
+  snd (add_edge g a b) = g.
+Proof. exact refusal_unchanged. Qed.
+Print Assumptions C14_refusal_unchanged.
+
+(** ... and so does every [add_edge] that does not end with "edge added". *)
+Theorem C14_raise_unchanged : forall g a b, wf g -> graph_acyclic g ->
+  fst (add_edge g a b) <> KOk -> snd (add_edge g a b) = g.
+Proof. exact not_ok_unchanged. Qed.
+Print Assumptions C14_raise_unchanged.
+
+(* ---- no false refusals (extended) ---------------------------------------- *)
+
+(** An edge between two existing, distinct nodes that is new and closes no
+    cycle IS added: appended to the source's list, nothing else changes. *)
+Theorem C14_accepts_valid : forall g a b, wf g -> graph_acyclic g ->
+  a <> b -> In a (keys g) -> In b (keys g) -> ~ In b (succs g a) -> ~ reachable g b a ->
+  add_edge g a b = (KOk, upd_adj g a (fun l => l ++ [b])).
+Proof. exact accepts_valid. Qed.
+Print Assumptions C14_accepts_valid.
+
+Theorem C14_added_edge_shape : forall g a b, In a (keys g) ->
+  succs (upd_adj g a (fun l => l ++ [b])) a = succs g a ++ [b] /\
+  (forall x, x <> a -> succs (upd_adj g a (fun l => l ++ [b])) x = succs g x) /\
+  keys (upd_adj g a (fun l => l ++ [b])) = keys g.
+Proof. exact added_edge_present. Qed.
+Print Assumptions C14_added_edge_shape.
+
+(* ---- dependents are exact (core) ----------------------------------------- *)
+
+(** [bfs_subtree(s)[0]], on ANY well-formed table (acyclic or not): it returns
+    (fuel suffices), lists no node twice and lists exactly the nodes reachable
+    from [s]. *)
+Theorem C14_bfs_exact : forall g s, wf g -> In s (keys g) ->
+  exists l, bfs_subtree g s = TOk l /\ NoDup l /\ (forall x, In x l <-> reachable g s x).
+Proof. exact bfs_subtree_exact. Qed.
+Print Assumptions C14_bfs_exact.
+
+(** the same for any successor function and any successor-closed universe
+    (this is the form the execution-graph model uses for its sweeps) *)
+Theorem C14_bfs_exact_gen : forall (sc : nat -> list nat) (s : nat) (U : list nat),
+  (forall x c, In x U -> In c (sc x) -> In c U) ->
+  forall fuel, In s U -> length U <= fuel ->
+  exists l, bfs sc fuel s = Some l /\ NoDup l /\ (forall x, In x l <-> reach sc s x).
+Proof. exact bfs_exact_gen. Qed.
+Print Assumptions C14_bfs_exact_gen.
+
+(* ---- topological order (extended) ---------------------------------------- *)
+
+(** On an acyclic table [topological_sort()] returns a permutation of the
+    nodes in which every edge goes forward. *)
+Theorem C14_topo : forall g, wf g -> graph_acyclic g ->
+  exists l, topological_sort g = TOk l /\ Permutation l (keys g) /\
+            (forall a b, edge g a b -> before l a b).
+Proof. exact topological_sort_perm. Qed.
+Print Assumptions C14_topo.
+
+(* ---- dfs_subtree (extended) ----------------------------------------------- *)
+
+(** On an acyclic table [dfs_subtree(s)[0]] returns and covers exactly the
+    reachable set (it may list a node below a diamond more than once: see
+    [C14_dfs_may_repeat]). *)
+Theorem C14_dfs_covers : forall g s, wf g -> graph_acyclic g -> In s (keys g) ->
+  exists l, dfs_subtree g s = TOk l /\ (forall x, In x l <-> reachable g s x).
+Proof. exact dfs_subtree_covers. Qed.
+Print Assumptions C14_dfs_covers.
+
+(* ---- the monitor ---------------------------------------------------------- *)
+
+(** What [C14_ok n g0 steps = true] says about ANY list of (operation,
+    observable) pairs -- in particular the implementation's: after every step
+    the observed table is well-formed, has the keys of [values], is acyclic,
+    is the table [expected] from the previous one (refused => unchanged,
+    valid => added), is unchanged if the call raised, detect_cycle() said
+    False, topological_sort() is a forward permutation, every bfs_subtree is
+    duplicate-free and exactly the reachable set, every dfs_subtree covers it. *)
+Theorem C14_monitor_meaning : forall n steps g0,
+  C14_ok n g0 steps = true -> steps_good n g0 steps.
+Proof. exact C14_ok_sound. Qed.
+Print Assumptions C14_monitor_meaning.
+
+(** [expected] in words, for add_edge *)
+Theorem C14_expected_add_edge : forall g a b, wf g ->
+  (a <> b /\ In a (keys g) /\ In b (keys g) /\ ~ In b (succs g a) /\ ~ reachable g b a ->
+   expected g (AddEdge a b) = upd_adj g a (fun l => l ++ [b])) /\
+  (a = b \/ ~ In a (keys g) \/ ~ In b (keys g) \/ In b (succs g a) \/ reachable g b a ->
+   expected g (AddEdge a b) = g).
+Proof. exact expected_add_edge. Qed.
+Print Assumptions C14_expected_add_edge.
+
+(** The model satisfies the monitor on EVERY operation sequence, for every
+    alphabet size [n] whose traversals are observed. *)
+Theorem C14_model_ok : forall n (ops : list op),
+  C14_ok n [] (combine ops (model_trace n [] ops)) = true.
+Proof. exact C14_ok_model. Qed.
+Print Assumptions C14_model_ok.
+
+(** ... also in the setup + branches format of the correspondence cases. *)
+Theorem C14_model_case_ok : forall n setup (brs : list (list op)),
+  monitor_ok (mkCase n setup (final [] setup)
+                     (map (fun ops => combine ops (model_trace n (final [] setup) ops)) brs)) = true.
+Proof. exact monitor_ok_model. Qed.
+Print Assumptions C14_model_case_ok.
+
+(* ---- non-vacuity ---------------------------------------------------------- *)
+
+(** a diamond 0 -> {1,2} -> 3 built by the operations *)
+Definition ex_ops : list op :=
+  [AddNode 0; AddNode 1; AddNode 2; AddNode 3;
+   AddEdge 0 1; AddEdge 0 2; AddEdge 1 3; AddEdge 2 3].
+Definition ex_g : graph := final [] ex_ops.
+
+Example ex_g_value : ex_g = [(0, [1; 2]); (1, [3]); (2, [3]); (3, [])].
+Proof. vm_compute. reflexivity. Qed.
+
+Example ex_wf_acyclic : wfb ex_g = true /\ is_acyclic ex_g = true.
+Proof. vm_compute. split; reflexivity. Qed.
+
+(** hypotheses of [C14_refusal_unchanged]: a cycle-closing edge 3 -> 0 is refused by raising *)
+Example ex_refused_cycle : add_edge ex_g 3 0 = (KCycle, ex_g).
+Proof. vm_compute. reflexivity. Qed.
+Example ex_refused_self : add_edge ex_g 1 1 = (KRefused, ex_g).
+Proof. vm_compute. reflexivity. Qed.
+Example ex_refused_dangling_src : add_edge ex_g 7 1 = (KValueError, ex_g).
+Proof. vm_compute. reflexivity. Qed.
+Example ex_refused_dangling_dst : add_edge ex_g 1 7 = (KRefused, ex_g).
+Proof. vm_compute. reflexivity. Qed.
+Example ex_refused_duplicate : add_edge ex_g 0 1 = (KRefused, ex_g).
+Proof. vm_compute. reflexivity. Qed.
+
+(** hypotheses of [C14_accepts_valid] are satisfiable: 1 -> 2 is accepted *)
+Example ex_accepted :
+  add_edge ex_g 1 2 = (KOk, [(0, [1; 2]); (1, [3; 2]); (2, [3]); (3, [])]).
+Proof. vm_compute. reflexivity. Qed.
+
+Example ex_bfs : bfs_subtree ex_g 0 = TOk [0; 1; 2; 3].
+Proof. vm_compute. reflexivity. Qed.
+
+Example ex_topo : topological_sort ex_g = TOk [0; 2; 1; 3].
+Proof. vm_compute. reflexivity. Qed.
+
+(** dfs_subtree repeats the node below the diamond; bfs_subtree does not *)
+Example C14_dfs_may_repeat : dfs_subtree ex_g 0 = TOk [0; 1; 3; 2; 3].
+Proof. vm_compute. reflexivity. Qed.
+
+(** the detector does answer True on a table holding a cycle (so
+    [detect_sound_true] is not vacuous), and the monitor rejects an observable
+    in which a refused cycle-creating edge stayed in the table (the pinned
+    tree's behaviour before the repair) *)
+Example ex_detect_true : detect_cycle [(0, [1]); (1, [0])] = Some true.
+Proof. vm_compute. reflexivity. Qed.
+
+Example ex_monitor_rejects_leftover_edge :
+  let g := [(0, [1]); (1, [])] in
+  let bad := [(0, [1]); (1, [0])] in
+  C14_ok 2 g [(AddEdge 1 0,
+               mkObs bad [0; 1] 2 1 (TErr 9) [TErr 9; TErr 9] [TErr 9; TErr 9])] = false.
+Proof. vm_compute. reflexivity. Qed.
+
+(** ... and accepts the model's own trace of the example (an instance of [C14_model_ok]) *)
+Example ex_monitor_accepts :
+  C14_ok 4 [] (combine (ex_ops ++ [AddEdge 3 0; RemoveEdge 0 1; RemoveEdge 0 1])
+                       (model_trace 4 [] (ex_ops ++ [AddEdge 3 0; RemoveEdge 0 1; RemoveEdge 0 1]))) = true.
+Proof. vm_compute. reflexivity. Qed.
